@@ -40,6 +40,15 @@ func keys(fs []string) []*token.Token {
 	return out
 }
 
+// the token kinds that parser.alias accepts as a one-token argument for a placeholder
+func isArg(t token.TokenType) bool {
+	switch t {
+	case token.INT, token.FLOAT, token.TRUE, token.FALSE, token.CHAR, token.STRING, token.IDENTIFIER, token.SYMBOL:
+		return true
+	}
+	return false
+}
+
 func newTrie() *at.Trie[*token.Token, int] {
 	return at.New[*token.Token, int](parser.VerifTokenEqual, parser.VerifTokenLess)
 }
@@ -173,7 +182,7 @@ func main() {
 				}()
 				cursors := map[int]int{}
 				cur := 0
-				vals := trie.Search(func(node int, _ *token.Token) (*token.Token, bool) {
+				vals := trie.Search(func(node int, child *token.Token) (*token.Token, bool) {
 					if c, ok := cursors[node]; ok {
 						cur = c
 					} else {
@@ -184,6 +193,11 @@ func main() {
 					}
 					k := q[cur]
 					cur++
+					// as the generator of parser.alias (alias.go:50-53), with one-token arguments: a placeholder
+					// child swallows an argument token and is handed back itself
+					if child != nil && child.Type == token.ALIAS_PARAMETER && isArg(k.Type) {
+						return child, true
+					}
 					return k, true
 				})
 				var b strings.Builder
